@@ -261,21 +261,13 @@ Proof.
     apply unused_origin; [apply unused_In in Ip; tauto | eapply absent_of_unused; eassumption | assumption].
 Qed.
 
-(* ---------- guards: `self` only as the implicit first positional; no arrival-order fallback ---------- *)
+(* ---------- guard: `self` only as the implicit first positional ---------- *)
 Definition first_is_self : bool :=
   match pos_params value sg with sp :: _ => Nat.eqb (sp_name sp) self_name | [] => false end.
 
 Definition self_guard (c : call value) : bool :=
   negb (mem self_name (keys (c_kwargs c))) && negb (declared value dc self_name)
   && (negb (sig_has value sg self_name) || first_is_self).
-
-Definition method_call (c : call value) : bool :=
-  negb (d_ignore_input dc) && first_is_self && match c_args c with _ :: _ => true | [] => false end.
-
-Definition is_args (m : return_as) : bool := match m with ARGS => true | _ => false end.
-
-Definition gate_guard (c : call value) : bool :=
-  negb (is_args (d_mode dc)) || names_fit value sg dc c || method_call c.
 
 Lemma in_sig_has : forall n, in_sig value sg n = sig_has value sg n.
 Proof.
@@ -337,34 +329,6 @@ Qed.
 Lemma all_in_sig_In : forall l n, all_in_sig value sg l = true -> In n l -> sig_has value sg n = true.
 Proof. intros l n A I. unfold all_in_sig in A. rewrite forallb_forall in A. rewrite <- in_sig_has. auto. Qed.
 
-Lemma result_no_fallback : forall c r, gate_guard c = true -> snd (wc_ref c) = WOk r -> no_fallback value sg (d_mode dc) r.
-Proof.
-  intros c r G H Hm Hs. unfold gate_guard in G. rewrite Hm in G. cbn [is_args negb orb] in G.
-  apply orb_true_iff in G. destruct G as [G|G].
-  - unfold names_fit in G. destruct (s_varkw sg); [reflexivity|]. cbn [orb negb andb] in *.
-    apply andb_true_iff in G. destruct G as [G1 G2].
-    destruct (unknown_key value sg r) eqn:U; [|reflexivity]. exfalso.
-    unfold unknown_key in U. apply existsb_exists in U. destruct U as [[k v] [I U]]. cbn [fst] in U.
-    apply negb_true_iff in U.
-    assert (K : In k (keys r)) by (unfold keys; change k with (fst (k, v)); now apply in_map).
-    destruct (result_keys _ _ _ H K) as [[_ [K'|K']]|K'].
-    + rewrite (all_in_sig_In _ _ G2 K') in U. discriminate.
-    + rewrite (pos_name_sig_has _ K') in U. discriminate.
-    + unfold declared in K'. apply existsb_exists in K'. destruct K' as [p [Ip E]]. apply Nat.eqb_eq in E. subst k.
-      rewrite (all_in_sig_In _ _ G1 (in_map _ _ _ Ip)) in U. discriminate.
-  - (* a method call: `self` is bound, _as_args is not reached *)
-    exfalso. unfold method_call in G. apply andb_true_iff in G. destruct G as [G G3].
-    apply andb_true_iff in G. destruct G as [G1 G2]. apply negb_true_iff in G1.
-    destruct (first_is_self_inv G2) as (sp & rest & PP & SN).
-    destruct (c_args c) as [|a args] eqn:Ar; [discriminate|].
-    destruct (wc_ok_inv _ _ H) as (xs & l12 & l3 & A & F12 & F3 & ->).
-    apply dget_None_keys in Hs. apply Hs. apply keys_dsets_In. left. unfold keys. rewrite map_app. apply in_or_app. left.
-    fold (keys l12). rewrite (item_ok_keys _ _ F12), map_map.
-    unfold arrival in A. rewrite G1, Ar in A. unfold bind_partial in A. destruct (Nat.ltb _ _); [discriminate|].
-    injection A as <-. rewrite PP. cbn [map combine]. rewrite map_app. apply in_or_app. right.
-    cbn [map titem fst snd]. left. assumption.
-Qed.
-
 (* ---------- C12: the gate ---------- *)
 Lemma fill_In : forall ps (d b : dict) n v, fill value ps d = Some b -> In (n, v) b ->
   In (n, v) d \/ exists sp, In sp ps /\ sp_name sp = n /\ sp_default sp = Some v.
@@ -394,12 +358,12 @@ Proof.
 Qed.
 
 Theorem gate : forall is_async c j b,
-  self_guard c = true -> gate_guard c = true ->
+  self_guard c = true ->
   vrun is_async c = (j, FBody b) ->
   forall n v, In (n, v) b -> origin c n v.
 Proof.
-  intros is_async c j b SG GG H n v I. destruct (run_body_inv _ _ _ _ H) as [r [W O]].
-  rewrite observe_normal in O by eauto using result_nodup, result_self_ok, result_no_fallback.
+  intros is_async c j b SG H n v I. destruct (run_body_inv _ _ _ _ H) as [r [W O]].
+  rewrite observe_normal in O by eauto using result_nodup, result_self_ok.
   destruct (pyb value sg (norm value is_none (d_mode dc) r)) as [b'|e] eqn:P; [|discriminate].
   cbn in O. injection O as ->. unfold pyb in P. destruct (negb (s_varkw sg) && _); [discriminate|].
   destruct (fill value (s_params sg) _) as [b0|] eqn:F; [|discriminate]. injection P as <-.
